@@ -34,7 +34,7 @@ ASSUMPTIONS = [
 
 KEYS = ('transport', 'pib', 'tpm')
 LOC_KINDS = ['none', 'abs-existing', 'rel-conf-existing', 'rel-cwd-existing', 'rel-both-existing', 'missing-abs', 'missing-rel',
-             'abs-existing-file', 'rel-conf-existing-file']
+             'abs-existing-file', 'rel-conf-existing-file', 'abs-dollar-existing', 'abs-dollar-missing']
 
 
 class Sandbox:
@@ -44,7 +44,8 @@ class Sandbox:
         self.cwd = os.path.join(self.root, 'cwd')
         os.makedirs(self.home)
         os.makedirs(self.cwd)
-        self.saved_env = {k: os.environ.get(k) for k in ['HOME'] + [f'NDN_CLIENT_{k.upper()}' for k in KEYS]}
+        self.saved_env = {k: os.environ.get(k) for k in ['HOME', 'C20VAR'] + [f'NDN_CLIENT_{k.upper()}' for k in KEYS]}
+        os.environ['C20VAR'] = 'decoy'
         self.saved_cwd = os.getcwd()
         os.environ['HOME'] = self.home
         for k in KEYS:
@@ -80,6 +81,15 @@ def materialise_loc(sb, kind, tag, conf_dir):
         p = os.path.join(sb.root, 'stores', tag)
         os.makedirs(p, exist_ok=True)
         return p, p
+    if kind in ('abs-dollar-existing', 'abs-dollar-missing'):
+        # a location whose text contains `$C20VAR` (a DEFINED environment variable): configured locations are taken literally; the
+        # directory the expansion would name exists as a decoy
+        os.makedirs(os.path.join(sb.root, 'stores', 'decoy-' + tag), exist_ok=True)
+        p = os.path.join(sb.root, 'stores', '$C20VAR-' + tag)
+        if kind == 'abs-dollar-existing':
+            os.makedirs(p, exist_ok=True)
+            return p, p
+        return p, 'MISSING'
     if kind == 'abs-existing-file':
         # a location that exists but is not a directory (e.g. a store kept in one file, or a device): it exists, so it is used as given
         p = os.path.join(sb.root, 'stores', tag + '.store')
@@ -521,7 +531,39 @@ def _linux_grid(tier):
             yield {'home_dir': home_dir, 'tpm_dir': tpm_dir, 'conf': conf, 'env': env, 'sock_new': sock_new, 'sock_old': sock_old}
 
 
+def run_home_unset(case):
+    """HOME unset or empty: the per-user locations are those of the account's home directory (password database), never the working
+    directory - a client.conf lying in ./.ndn is not read."""
+    r = Result()
+    sb = Sandbox()
+    try:
+        decoy = 'tcp://decoy.example:%d' % (6000 + case['n'])
+        os.makedirs(os.path.join(sb.cwd, '.ndn'), exist_ok=True)
+        with open(os.path.join(sb.cwd, '.ndn', 'client.conf'), 'w') as f:
+            f.write(f'transport={decoy}\n')
+        if case['home'] == 'unset':
+            os.environ.pop('HOME', None)
+        else:
+            os.environ['HOME'] = ''
+        try:
+            got = client_conf.read_client_conf()
+        except Exception as e:
+            return r.bad(f'C20/home-{case["home"]}/raised/{type(e).__name__}', repr(e)[:200])
+        if got['transport'] == decoy:
+            r.bad(f'C20/home-{case["home"]}/configuration-read-from-working-directory', f'transport {got["transport"]}')
+        for key in ('pib', 'tpm'):
+            if got[key].partition(':')[2].startswith(sb.cwd) or got[key].partition(':')[2].startswith('.ndn'):
+                r.bad(f'C20/home-{case["home"]}/{key}-location-in-working-directory', got[key])
+    finally:
+        sb.close()
+    r.key = (case['home'], case['n'])
+    r.classes = ('home-' + case['home'],)
+    return r
+
+
 SUBCHECKS = {
+    'home-unset': SubCheck(run_home_unset, enumerate=lambda tier: [{'home': h, 'n': n} for h in ('unset', 'empty') for n in range(3)],
+                           exhaustive={'quick': True, 'thorough': True}, note='HOME unset / empty with a decoy ./.ndn/client.conf'),
     'grid': SubCheck(run_case, enumerate=_grid, exhaustive={'quick': False, 'thorough': True},
                      note='presence/absence product env(2^3) x existing-file pattern(4) x file keys(2^3) x location kind(6) x default-location '
                           'existence(4); thorough = complete, quick = every third combination'),
